@@ -22,7 +22,7 @@ inductive SubCall where
   | clone (id : Nat)
   | tryClose (id : Nat)
   | event (k : Nat) (p : SParent) (fields : Fields)
-  deriving Repr, Inhabited
+  deriving Repr, Inhabited, DecidableEq
 
 structure LogState where
   next : Nat := 1
